@@ -912,7 +912,9 @@ Proof.
   set (l := mkBlist ty bs minB (if maxB0 =? 0 then MAXINT else maxB0) gr (negb (blockSize =? 0)) (Z.land flags 2) al [] 0 true).
   set (uid := v_next_uid v).
   assert (Hwf : blist_wf c l).
-  { constructor; cbn; try constructor; try lia.
+  { constructor; cbn.
+    9: (unfold gr, eff_granularity; destruct (Z.testbit flags 0); auto).
+    all: try constructor; try lia.
     - unfold type_valid. apply orb_false_iff in Ety. destruct Ety as (E1 & E2). apply Z.ltb_ge in E1. apply Z.leb_gt in E2.
       apply andb_true_iff. split; [apply Z.leb_le; lia|apply Z.ltb_lt; lia].
     - unfold al. pose proof (type_min_alignment_pow2 ty) as Ht. destruct (type_min_alignment c ty <? minAlign) eqn:E; [|auto].
@@ -1161,7 +1163,9 @@ Proof.
   - apply init_lists_length.
   - apply repeat_length.
   - intros t l H. destruct (Hlist _ _ H) as (t' & E & _ & ->). injection E as ->. reflexivity.
-  - intros lr l H. destruct (Hlist _ _ H) as (t & _ & Hr & ->). constructor; cbn; try constructor; try lia.
+  - intros lr l H. destruct (Hlist _ _ H) as (t & _ & Hr & ->). constructor; cbn.
+    9: (right; reflexivity).
+    all: try constructor; try lia.
     + unfold type_valid, ntypes, zlen. apply andb_true_iff. split; [apply Z.leb_le; lia|apply Z.ltb_lt; lia].
     + apply type_min_alignment_pow2.
     + apply eff_granularity_pow2.
@@ -1184,5 +1188,6 @@ Proof.
   - intros s lr l b rg [].
   - lia.
   - constructor.
+  - intros s a S. exfalso. eapply Hnoslot; eauto.
 Qed.
 End WithCfg.
